@@ -19,7 +19,8 @@ SPEC = {-7: "ECDSA-SHA256", -36: "ECDSA-SHA512", -8: "ED25519", -257: "PKCS1-SHA
         -65535: "PKCS1-SHA1", -37: "PSS-SHA256", -38: "PSS-SHA384", -39: "PSS-SHA512"}
 FAM_OF = {"ECDSA": "ec", "PKCS1": "rsa", "PSS": "rsa", "ED25519": "ed"}
 SIGN = {"ec": ["ECDSA-SHA1", "ECDSA-SHA256", "ECDSA-SHA384", "ECDSA-SHA512"],
-        "rsa": ["PKCS1-SHA1", "PKCS1-SHA256", "PKCS1-SHA384", "PKCS1-SHA512", "PSS-SHA256", "PSS-SHA384", "PSS-SHA512"],
+        "rsa": ["PKCS1-SHA1", "PKCS1-SHA256", "PKCS1-SHA384", "PKCS1-SHA512", "PSS-SHA256", "PSS-SHA384", "PSS-SHA512",
+                "PSSM-SHA384-SHA256", "PSSM-SHA512-SHA256", "PSSM-SHA256-SHA1", "PSSM-SHA256-SHA512", "PSSM-SHA512-SHA384", "PSSM-SHA384-SHA1"],       # MGF1 over another hash than the digest
         "ed": ["ED25519"]}
 
 
